@@ -484,15 +484,124 @@ func (r *c14run) runCase(input, class string) error {
 			obs = st
 		}
 		r.emit(input, obs, class)
+	case "T":
+		// T <pver> <ebs> <net> <k> <part>;<part>;..   the stream of an S case (a part is hex or @<kind>:<n> = a
+		// mainnet frame of that list kind with n elements, built deterministically) is decoded twice by repeated
+		// ReadMessage: from an in-memory reader and through a reader that hands out at most k bytes per Read call
+		// (as a TCP connection does).  obs: "same", or the first call whose verdict / reader position differs.
+		if len(f) != 6 {
+			return bad
+		}
+		net, e3 := c14Atou32(f[3])
+		k, e4 := strconv.Atoi(f[4])
+		if e3 != nil || e4 != nil || k < 1 {
+			return bad
+		}
+		var stream []byte
+		for _, part := range strings.Split(f[5], ";") {
+			if strings.HasPrefix(part, "@") {
+				fr, err := c14BigFrame(part[1:], net)
+				if err != nil {
+					return bad
+				}
+				stream = append(stream, fr...)
+				continue
+			}
+			b, err := hex.DecodeString(part)
+			if err != nil {
+				return bad
+			}
+			stream = append(stream, b...)
+		}
+		r.inflight(input)
+		decode := func(chunk int) (res []string) {
+			rd := bytes.NewReader(stream)
+			var src io.Reader = rd
+			if chunk > 0 {
+				src = &c14ChunkReader{r: rd, k: chunk}
+			}
+			for calls := 0; calls < 16 && rd.Len() > 0; calls++ {
+				v := c14ReadOne(src, stream[len(stream)-rd.Len():], pver, net)
+				if len(v) > 160 {
+					v = fmt.Sprintf("%s..(%d chars, md5 %x)", v[:60], len(v), md5.Sum([]byte(v)))
+				}
+				res = append(res, fmt.Sprintf("%s@%d", v, len(stream)-rd.Len()))
+			}
+			return res
+		}
+		obs := "same"
+		_, st := c14Guard(func() {
+			mem, chunked := decode(0), decode(k)
+			for i := 0; i < len(mem) || i < len(chunked); i++ {
+				a, b := "-", "-"
+				if i < len(mem) {
+					a = mem[i]
+				}
+				if i < len(chunked) {
+					b = chunked[i]
+				}
+				if a != b {
+					obs = fmt.Sprintf("differs call=%d memory=%s chunked=%s", i+1, strings.ReplaceAll(a, " ", "_"), strings.ReplaceAll(b, " ", "_"))
+					return
+				}
+			}
+		})
+		if st != "" {
+			obs = st
+		}
+		r.emit(input, obs, class)
 	default:
 		return bad
 	}
 	return nil
 }
 
+// c14ChunkReader hands out at most k bytes per Read call (short reads, as a network connection gives them)
+type c14ChunkReader struct {
+	r *bytes.Reader
+	k int
+}
+
+func (c *c14ChunkReader) Read(p []byte) (int, error) {
+	if len(p) > c.k {
+		p = p[:c.k]
+	}
+	return c.r.Read(p)
+}
+
+// c14BigFrame builds the frame "<kind>:<n>": a valid frame of the list kind with n elements whose bytes are a
+// fixed function of the element index (any bytes are a valid inventory vector / address; a header entry needs
+// its trailing zero transaction count)
+func c14BigFrame(spec string, net uint32) ([]byte, error) {
+	i := strings.IndexByte(spec, ':')
+	if i < 0 {
+		return nil, fmt.Errorf("big frame %q", spec)
+	}
+	kind := spec[:i]
+	n, err := strconv.Atoi(spec[i+1:])
+	if err != nil || n < 0 || n > 60000 {
+		return nil, fmt.Errorf("big frame %q", spec)
+	}
+	size := map[string]int{"inv": 36, "getdata": 36, "notfound": 36, "headers": 81, "addr": 30}[kind]
+	if size == 0 {
+		return nil, fmt.Errorf("big frame %q", spec)
+	}
+	p := c14Varint(uint64(n))
+	for e := 0; e < n; e++ {
+		for j := 0; j < size; j++ {
+			b := byte(e*7 + j*13 + e>>8)
+			if kind == "headers" && j == 80 {
+				b = 0
+			}
+			p = append(p, b)
+		}
+	}
+	return c14Frame(net, []byte(kind), p), nil
+}
+
 // c14ReadOne: one ReadMessage on rd, whose unread bytes are rest; the verdict without position:
 // "OK <msg>" | "OK opaque:<cmd>" | "E:class"
-func c14ReadOne(rd *bytes.Reader, rest []byte, pver, net uint32) string {
+func c14ReadOne(rd io.Reader, rest []byte, pver, net uint32) string {
 	hcmd, hlen := "", uint32(0)
 	if len(rest) >= 24 {
 		hcmd = string(bytes.TrimRight(rest[4:16], "\x00"))
